@@ -23,7 +23,7 @@ Section Engine.
       by (intros; apply bind_np; [apply expect_np|assumption]).
     destruct c; simpl.
     - apply B; [apply IH|intros [l ts1]; apply IH].
-    - destruct ts as [|[k|v|v] ts']; try discriminate; [|apply IH].
+    - destruct ts as [|[k|v|v] ts']; try discriminate; [|destruct (pt_numnum T || negb (kind_eqb (hdk ts') KNum)); [apply IH|discriminate]].
       destruct k; try discriminate;
         try (destruct (pt_const T _); [discriminate|];
              destruct (pt_open T _) as [[close w]|]; [|discriminate];
